@@ -134,4 +134,126 @@ theorem get_added (st : FSt) (f : Item) (h : Dict.contains st._fields f.name = f
         exact ih hd
   exact this _ h
 
+
+/-! ### `Fields.__setattr__` / `__getattribute__`: the attribute magic behind `self.f.<name>` -/
+
+theorem bok {α β : Type} (x : α) (f : α → Except Ubx.Exc β) : ((Except.ok x : Except Ubx.Exc α) >>= f) = f x := rfl
+
+theorem gs {κ ν : Type} [DecidableEq κ] (d : Dict κ ν) (k k' : κ) (v : ν) :
+    Dict.getitem (Dict.setitem d k v) k' = if k = k' then .ok v else Dict.getitem d k' := by
+  induction d with
+  | nil => simp [Dict.setitem, Dict.getitem]
+  | cons e rest ih =>
+    obtain ⟨k0, v0⟩ := e
+    simp only [Dict.setitem]
+    by_cases h0 : k0 = k
+    · subst h0
+      simp only [if_true, Dict.getitem]
+      by_cases h1 : k0 = k' <;> simp [h1]
+    · simp only [h0, if_false, Dict.getitem, ih]
+      by_cases h1 : k0 = k'
+      · have : ¬ k = k' := fun h => h0 (h1.trans h.symm)
+        simp [h1, this]
+      · simp [h1]
+
+theorem getitem_ok_contains {κ ν : Type} [DecidableEq κ] (d : Dict κ ν) (k : κ) (v : ν) (h : Dict.getitem d k = .ok v) : Dict.contains d k = true := by
+  induction d with
+  | nil => simp [Dict.getitem] at h
+  | cons e rest ih =>
+    obtain ⟨k', v'⟩ := e
+    simp only [Dict.getitem, Dict.contains] at *
+    by_cases hk : k' = k
+    · simp [hk]
+    · simp only [hk, if_false] at h ⊢; exact ih h
+
+theorem contains_false_getitem {κ ν : Type} [DecidableEq κ] (d : Dict κ ν) (k : κ) (h : Dict.contains d k = false) :
+    Dict.getitem d k = .error Ubx.Exc.keyError := by
+  induction d with
+  | nil => rfl
+  | cons e rest ih =>
+    obtain ⟨k', v'⟩ := e
+    simp only [Dict.getitem, Dict.contains] at *
+    by_cases hk : k' = k
+    · simp [hk] at h
+    · simp only [hk, if_false] at h ⊢; exact ih h
+
+/-- **`self.f.<name> = v` on a field**: the item of that name gets the value, in place; nothing else in the object changes -/
+theorem setattr_field (d : ObjDict) (fs : Dict String Item) (name : String) (v : Int) (it : Item)
+    (h1 : Dict.getitem d "_fields" = .ok (.fields fs)) (h2 : Dict.getitem fs name = .ok it) :
+    Gen.Src.Fields.__setattr__ d name v = .ok (Dict.setitem d "_fields" (.fields (Dict.setitem fs name { it with value := v }))) := by
+  unfold Gen.Src.Fields.__setattr__
+  have c1 := getitem_ok_contains d "_fields" _ h1
+  have c2 := getitem_ok_contains fs name _ h2
+  simp only [c1, if_true, h1, asFields, c2, h2, bok]
+
+/-- **`self.f.<name> = v` on a name that is no field**: an ordinary attribute of the container; no field sees it -/
+theorem setattr_other (d : ObjDict) (fs : Dict String Item) (name : String) (v : Int)
+    (h1 : Dict.getitem d "_fields" = .ok (.fields fs)) (h2 : Dict.contains fs name = false) :
+    Gen.Src.Fields.__setattr__ d name v = .ok (Dict.setitem d name (.val v)) := by
+  unfold Gen.Src.Fields.__setattr__
+  have c1 := getitem_ok_contains d "_fields" _ h1
+  simp only [c1, if_true, h1, asFields, h2, bok, Bool.false_eq_true, if_false]
+  try rfl
+
+/-- before `__init__` has set `_fields` (its own assignments go this way) -/
+theorem setattr_early (d : ObjDict) (name : String) (v : Int) (h : Dict.contains d "_fields" = false) :
+    Gen.Src.Fields.__setattr__ d name v = .ok (Dict.setitem d name (.val v)) := by
+  unfold Gen.Src.Fields.__setattr__
+  simp only [h, Bool.false_eq_true, if_false, bok]
+  rfl
+
+/-- **`self.f.<name>` on a field**: the value the item holds -/
+theorem getattr_field (d : ObjDict) (fs : Dict String Item) (name : String) (it : Item)
+    (h1 : Dict.getitem d "_fields" = .ok (.fields fs)) (h2 : Dict.getitem fs name = .ok it) :
+    Gen.Src.Fields.__getattribute__ d name = .ok (.val it.value) := by
+  unfold Gen.Src.Fields.__getattribute__
+  have c1 := getitem_ok_contains d "_fields" _ h1
+  have c2 := getitem_ok_contains fs name _ h2
+  simp only [c1, if_true, objectGetattr, h1, asFields, c2, h2, bok]
+
+/-- **`self.f.<name>` on a name that is no field**: an ordinary attribute, `AttributeError` if there is none -/
+theorem getattr_other (d : ObjDict) (fs : Dict String Item) (name : String)
+    (h1 : Dict.getitem d "_fields" = .ok (.fields fs)) (h2 : Dict.contains fs name = false) :
+    Gen.Src.Fields.__getattribute__ d name = objectGetattr d name := by
+  unfold Gen.Src.Fields.__getattribute__
+  have c1 := getitem_ok_contains d "_fields" _ h1
+  simp only [c1, if_true, objectGetattr, h1, asFields, h2, bok, Bool.false_eq_true, if_false]
+
+theorem getattr_missing (d : ObjDict) (fs : Dict String Item) (name : String)
+    (h1 : Dict.getitem d "_fields" = .ok (.fields fs)) (h2 : Dict.contains fs name = false) (h3 : Dict.contains d name = false) :
+    Gen.Src.Fields.__getattribute__ d name = .error Ubx.Exc.attributeError := by
+  rw [getattr_other d fs name h1 h2, objectGetattr, contains_false_getitem d name h3]
+
+/-- assigning to a field keeps every name where it is and every ordinal as it was: only that one value changes -/
+theorem setitem_value_only (fs : Dict String Item) (name : String) (it : Item) (v : Int) (h : Dict.getitem fs name = .ok it) :
+    (Dict.setitem fs name { it with value := v }).map (fun e => (e.1, e.2.name, e.2.order, e.2.tag)) =
+      fs.map (fun e => (e.1, e.2.name, e.2.order, e.2.tag)) ∧
+    ∀ other, other ≠ name → Dict.getitem (Dict.setitem fs name { it with value := v }) other = Dict.getitem fs other := by
+  constructor
+  · induction fs with
+    | nil => simp [Dict.getitem] at h
+    | cons e rest ih =>
+      obtain ⟨k', v'⟩ := e
+      simp only [Dict.getitem] at h
+      by_cases hk : k' = name
+      · simp only [hk, if_true, Except.ok.injEq] at h
+        subst h
+        simp [Dict.setitem, hk]
+      · simp only [hk, if_false] at h
+        simp [Dict.setitem, hk, ih h]
+  · intro other ho
+    rw [gs]
+    simp [Ne.symm ho]
+
+/-- read after write -/
+theorem getattr_after_setattr (d : ObjDict) (fs : Dict String Item) (name : String) (v : Int) (it : Item)
+    (h1 : Dict.getitem d "_fields" = .ok (.fields fs)) (h2 : Dict.getitem fs name = .ok it) :
+    (Gen.Src.Fields.__setattr__ d name v >>= fun d' => Gen.Src.Fields.__getattribute__ d' name) = .ok (.val v) := by
+  rw [setattr_field d fs name v it h1 h2]
+  show Gen.Src.Fields.__getattribute__ _ name = _
+  rw [getattr_field _ (Dict.setitem fs name { it with value := v }) name { it with value := v }]
+  · rw [gs]; simp
+  · rw [gs]; simp
+
+
 end SrcEquiv
